@@ -4,3 +4,4 @@ import LeraxProofs.C13
 import LeraxProofs.C06
 import LeraxProofs.C09
 import LeraxProofs.C04
+import LeraxProofs.C05
